@@ -34,5 +34,8 @@ func TestCheck(t *testing.T) {
 		{Name: "om?np=2&split=1&auto=1&ops=2&gates=om.flush.sent&faults=" + faults + ",missing-unstored", Q: 5, T: 7},
 		// every mark and reset with the same (empty) metadata: positions differ by the offset only
 		{Name: "om?np=1&auto=1&ops=3&meta=const&gates=om.flush.sent&faults=" + faults, Q: 7, T: 9},
+		// other retry budgets: none at all (Close still owes one final attempt) and a larger one
+		{Name: "om?np=1&auto=1&ops=2&rm=0&init=valid&gates=om.flush.sent&faults=notcoord,drop", Q: 5, T: 6},
+		{Name: "om?np=1&auto=1&ops=2&rm=3&gates=om.flush.sent&faults=notcoord", Q: 5, T: 6},
 	}, 50*time.Second, 9*time.Minute, assumptions)
 }
